@@ -61,6 +61,28 @@ int main(void)
 			if (scanf("%d %d %d %d %d %d %d %d %d %d %d %d %d %d %d %d", &act, &ain, &aout, &inNull, &outNull,
 					&resv, &iret, &uin, &uout, &xret, &xseq, &xsaved, &xallow, &xti, &xto, &xran) != 16)
 				return 2;
+			if (act == 7) {
+				// Reinit: what lzma_next_strm_init() + a constructor do on an existing handle:
+				// lzma_strm_init(), then the constructor enables (only enables) its actions.
+				const int had_internal = strm.internal != NULL;
+				const size_t old_saved = had_internal ? strm.internal->avail_in : 0;
+				if (lzma_strm_init(&strm) != LZMA_OK) return 2;
+				if (!had_internal) strm.internal->avail_in = 0;
+				strm.internal->next.code = &mock_code;
+				strm.internal->next.init = (uintptr_t)&mock_code;
+				for (int a = 0; a <= LZMA_ACTION_MAX; ++a)
+					if ((ain >> a) & 1)
+						strm.internal->supported_actions[a] = true;
+				ti = 0; to = 0;
+				++calls;
+				CMP("reinit_sequence", xseq, strm.internal->sequence);
+				CMP("reinit_allow_buf_error", xallow, strm.internal->allow_buf_error);
+				CMP("reinit_total_in", 0, strm.total_in); CMP("reinit_total_out", 0, strm.total_out);
+				CMP("reinit_saved_avail_in", old_saved, strm.internal->avail_in);
+				for (int a = 0; a <= LZMA_ACTION_MAX; ++a)
+					CMP("reinit_supported_actions", (ain >> a) & 1, strm.internal->supported_actions[a]);
+				continue;
+			}
 			memset(inbuf, 0xA5, sizeof(inbuf)); memset(outbuf, 0xA5, sizeof(outbuf));
 			nin = inbuf + G; nout = outbuf + G;
 			strm.next_in = inNull ? NULL : nin; strm.avail_in = (size_t)ain;
